@@ -338,6 +338,9 @@ func parseClassSet(sc *scanner) class {
 		sc.Next()
 	}
 	isrange := false
+	// canrange: the last element is a plain character, the only thing a '-' can turn into
+	// the start of a range (after a %x class or a complete range '-' stands for itself)
+	canrange := false
 	for {
 		ch := sc.Peek()
 		switch ch {
@@ -352,7 +355,7 @@ func parseClassSet(sc *scanner) class {
 			}
 			fallthrough
 		case '-':
-			if len(set.Classes) > 0 {
+			if len(set.Classes) > 0 && canrange && !isrange {
 				sc.Next()
 				isrange = true
 				continue
@@ -360,6 +363,7 @@ func parseClassSet(sc *scanner) class {
 			fallthrough
 		default:
 			set.Classes = append(set.Classes, parseClass(sc, false))
+			canrange = ch != '%'
 		}
 		if isrange {
 			begin := set.Classes[len(set.Classes)-2]
@@ -367,6 +371,7 @@ func parseClassSet(sc *scanner) class {
 			set.Classes = set.Classes[0 : len(set.Classes)-2]
 			set.Classes = append(set.Classes, &rangeClass{begin, end})
 			isrange = false
+			canrange = false
 		}
 	}
 exit:
